@@ -769,18 +769,6 @@ def _probe_uncommitted(ctx, db, label, ref_desc_options, fails, fid, clause, wha
     return ok
 
 
-def _fs_listing(root):
-    out = []
-    for r, ds, fs_ in os.walk(root):
-        for f in sorted(fs_):
-            p = os.path.join(r, f)
-            try:
-                out.append((p[len(root):], os.path.getsize(p)))
-            except OSError:
-                out.append((p[len(root):], -1))
-    return sorted(out)
-
-
 class _Run:
     pass
 
@@ -1765,23 +1753,23 @@ class _RFails:
                                       'replay_fn': 'bounded_record_updates_replay'})
 
 
-def _check_roundtrip(m0, m2, lay, edits, fails):
+def _check_roundtrip(m0, m2, lay, edits):
     """the contract: re-reading the code generated for m2 gives the parameters / random variables
-    of m2, and untouched values keep their spelling.  returns True when the case was evaluated"""
+    of m2, and untouched values keep their spelling.
+    returns the violated clauses as [(fid, clause without label, detail)]"""
     from pharmpy.modeling import read_model_from_string
 
     family = lay['family']
     fid = FID_UPD_TH if family == 'theta' else FID_UPD_RV
-    label = _edit_label(lay['cls'], edits)
+    out = []
 
-    fam_label = _edit_label({'theta': '$THETA', 'omega': '$OMEGA', 'sigma': '$SIGMA'}[family], edits)
+    class fails:  # collects (fid, clause, detail); the caller adds the label of the edit sequence
+        @staticmethod
+        def add(fid_, clause, detail, lay_, edits_):
+            out.append((fid_, clause, detail))
 
     def cl(c):
-        # naming / ordering clauses are keyed by record type only (systematic), the value-level
-        # clauses by layout class (so that one class cannot mask a violation in another)
-        if c in (R_NAMES, R_ORDER, R_RVNAMES):
-            return f'{fam_label}: {c}'
-        return f'{label}: {c}'
+        return c
 
     ctx = f"layout {lay['theta']!r} | {lay['omega']!r} | {lay['sigma']!r}, edits {edits}: "
     try:
@@ -1789,7 +1777,7 @@ def _check_roundtrip(m0, m2, lay, edits, fails):
         m3 = read_model_from_string(code)
     except Exception as e:
         fails.add(fid, cl(R_PARSE), ctx + f'{_exc_str(e)}', lay, edits)
-        return True
+        return out
     shown = ' // '.join(ln for ln in code.split('\n') if ln[:1] in '$ 0123456789(.' and not ln.startswith(
         ('$PROB', '$INPUT', '$DATA', '$PRED', '$EST')))
     ctx += f'code {shown!r}: '
@@ -1803,7 +1791,7 @@ def _check_roundtrip(m0, m2, lay, edits, fails):
         r2, r3 = _roles(m2), _roles(m3)
     except Exception as e:
         fails.add(fid, cl(R_RVSTRUCT), ctx + f'roles not computable: {_exc_str(e)}', lay, edits)
-        return True
+        return out
     if sorted(r2) != sorted(r3):
         fails.add(fid, cl(R_RVSTRUCT), ctx + f'parameter positions differ: in memory {sorted(r2)}, re-read {sorted(r3)}',
                   lay, edits)
@@ -1883,7 +1871,7 @@ def _check_roundtrip(m0, m2, lay, edits, fails):
     if lost_sc:
         fails.add(fid, cl(R_SPELL_SC), ctx + f'unchanged (parameter, original spelling) no longer in the record text: '
                                              f'{lost_sc}', lay, edits)
-    return True
+    return out
 
 
 def _canon(pat):
@@ -1895,8 +1883,32 @@ def _rv_brief(v):
     return [(k, n, lv, [[round(x, 9) for x in row] for row in mat]) for k, n, lv, mat, pat in v]
 
 
+def _full_clause(lay, edits, c):
+    """clause key: naming / ordering clauses are keyed by record type only (systematic), the
+    value-level clauses by layout class (so that one class cannot mask a violation in another)"""
+    if c in (R_NAMES, R_ORDER, R_RVNAMES):
+        return f"{_edit_label({'theta': '$THETA', 'omega': '$OMEGA', 'sigma': '$SIGMA'}[lay['family']], edits)}: {c}"
+    return f"{_edit_label(lay['cls'], edits)}: {c}"
+
+
+def _eval_sequence(m0, model, lay, seq, e):
+    """apply edit e (last of seq) to `model` and evaluate the contract.
+    returns (new model or None, status 'rejected'|'error'|'ok', [(fid, clause, detail)])"""
+    where = f"layout {lay['theta']!r} | {lay['omega']!r} | {lay['sigma']!r}, edits {seq}: "
+    try:
+        m2 = _apply_edit(model, e)
+    except ValueError:
+        return None, 'rejected', []  # rejected input (documented)
+    except Exception as ex:
+        return None, 'error', [(_FID_EDIT[e[0]], R_NOERR, where + _exc_str(ex) + ' :: ' + traceback.format_exc()[-250:])]
+    return m2, 'ok', _check_roundtrip(m0, m2, lay, seq)
+
+
 def _run_layout(lay, depth):
-    """all edit sequences of length <= depth on one layout; returns (cases, nontrivial, fails)"""
+    """all edit sequences of length <= depth on one layout; returns (cases, nontrivial, fails).
+    A violation by a PAIR of edits is reported only when the same clause is not already violated
+    by its first edit alone or by its second edit alone on the same layout (those are reported
+    as single-edit violations)."""
     from pharmpy.model import ModelSyntaxError
     from pharmpy.modeling import read_model_from_string
 
@@ -1904,49 +1916,59 @@ def _run_layout(lay, depth):
     code = _layout_code(lay)
     family = lay['family']
     fid = FID_UPD_TH if family == 'theta' else FID_UPD_RV
-    cases = nontrivial = 0
-    cases += 1
+    cases = 1
+    nontrivial = 0
     try:
         m0 = read_model_from_string(code)
     except ModelSyntaxError:
         return cases, nontrivial, fails  # documented: the layout is not legal for pharmpy
     except Exception as e:
-        fails.add(FID_PARSE, f'{lay["cls"]} layout: {R_READ}', f'layout {code!r}: {_exc_str(e)}', lay, [])
+        fails.add(FID_PARSE, _full_clause(lay, [], R_READ), f'layout {code!r}: {_exc_str(e)}', lay, [])
         return cases, nontrivial, fails
     nontrivial += 1
     try:
         if m0.code != code:
-            fails.add(fid, f'{lay["cls"]} layout, no edit: {R_IDENT}', f'layout {code!r} regenerated as {m0.code!r}', lay, [])
+            fails.add(fid, _full_clause(lay, [], R_IDENT), f'layout {code!r} regenerated as {m0.code!r}', lay, [])
     except Exception as e:
-        fails.add(fid, f'{lay["cls"]} layout, no edit: {R_PARSE}', f'layout {code!r}: {_exc_str(e)}', lay, [])
-    _check_roundtrip(m0, m0, lay, [], fails)
-
-    def rec(model, edits, d):
-        nonlocal cases, nontrivial
-        try:
-            cand = _edits_for(model, family)
-        except Exception as e:
-            fails.add(fid, f'{_edit_label(lay["cls"], edits)}: {R_RVSTRUCT}',
-                      f'layout {code!r} edits {edits}: model not inspectable: {_exc_str(e)}', lay, edits)
-            return
-        for e in cand:
-            cases += 1
-            seq = edits + [e]
-            try:
-                m2 = _apply_edit(model, e)
-            except ValueError:
-                continue  # rejected input (documented)
-            except Exception as ex:
-                fails.add(_FID_EDIT[e[0]], f'{_edit_label(lay["cls"], seq)}: {R_NOERR}',
-                          f"layout {lay['theta']!r} | {lay['omega']!r} | {lay['sigma']!r}, edits {seq}: {_exc_str(ex)} :: "
-                          + traceback.format_exc()[-250:], lay, seq)
-                continue
+        fails.add(fid, _full_clause(lay, [], R_PARSE), f'layout {code!r}: {_exc_str(e)}', lay, [])
+    for f_, c_, d_ in _check_roundtrip(m0, m0, lay, []):
+        fails.add(f_, _full_clause(lay, [], c_), d_, lay, [])
+    try:
+        singles = _edits_for(m0, family)
+    except Exception as e:
+        fails.add(fid, _full_clause(lay, [], R_RVSTRUCT), f'layout {code!r}: model not inspectable: {_exc_str(e)}', lay, [])
+        return cases, nontrivial, fails
+    single_failed = {}
+    firsts = []
+    for e in singles:
+        cases += 1
+        m2, status, viol = _eval_sequence(m0, m0, lay, [e], e)
+        single_failed[repr(e)] = {c for f_, c, d_ in viol}
+        for f_, c_, d_ in viol:
+            fails.add(f_, _full_clause(lay, [e], c_), d_, lay, [e])
+        if status != 'rejected':
             nontrivial += 1
-            _check_roundtrip(m0, m2, lay, seq, fails)
-            if d > 1:
-                rec(m2, seq, d - 1)
-
-    rec(m0, [], depth)
+        if status == 'ok':
+            firsts.append((e, m2))
+    if depth > 1:
+        for e1, m1 in firsts:
+            try:
+                seconds = _edits_for(m1, family)
+            except Exception as ex:
+                fails.add(fid, _full_clause(lay, [e1], R_RVSTRUCT),
+                          f'layout {code!r} edits {[e1]}: model not inspectable: {_exc_str(ex)}', lay, [e1])
+                continue
+            for e2 in seconds:
+                cases += 1
+                seq = [e1, e2]
+                m2, status, viol = _eval_sequence(m0, m1, lay, seq, e2)
+                if status != 'rejected':
+                    nontrivial += 1
+                known = single_failed.get(repr(e1), set()) | single_failed.get(repr(e2), set())
+                for f_, c_, d_ in viol:
+                    if c_ in known:
+                        continue
+                    fails.add(f_, _full_clause(lay, seq, c_), d_, lay, seq)
     return cases, nontrivial, fails
 
 
@@ -2008,12 +2030,13 @@ def bounded_record_updates(tier):
 
 
 def bounded_record_updates_replay(rp):
-    case = rp['case']
-    lay = case['layout']
     from pharmpy.model import ModelSyntaxError
     from pharmpy.modeling import read_model_from_string
 
-    fails = _RFails()
+    case = rp['case']
+    lay = case['layout']
+    edits = case['edits']
+    found = []
     code = _layout_code(lay)
     family = lay['family']
     fid = FID_UPD_TH if family == 'theta' else FID_UPD_RV
@@ -2023,32 +2046,25 @@ def bounded_record_updates_replay(rp):
         except ModelSyntaxError:
             return (True, 'ok')
         except Exception as e:
-            fails.add(FID_PARSE, f'{lay["cls"]} layout: {R_READ}', f'layout {code!r}: {_exc_str(e)}', lay, [])
             m0 = None
-        if m0 is not None:
-            edits = case['edits']
-            if not edits:
-                try:
-                    if m0.code != code:
-                        fails.add(fid, f'{lay["cls"]} layout, no edit: {R_IDENT}', f'regenerated as {m0.code!r}', lay, [])
-                except Exception as e:
-                    fails.add(fid, f'{lay["cls"]} layout, no edit: {R_PARSE}', _exc_str(e), lay, [])
+            found.append((FID_PARSE, _full_clause(lay, [], R_READ), _exc_str(e)))
+        if m0 is not None and not edits:
+            try:
+                if m0.code != code:
+                    found.append((fid, _full_clause(lay, [], R_IDENT), f'regenerated as {m0.code!r}'))
+            except Exception as e:
+                found.append((fid, _full_clause(lay, [], R_PARSE), _exc_str(e)))
+            found += [(f_, _full_clause(lay, [], c_), d_) for f_, c_, d_ in _check_roundtrip(m0, m0, lay, [])]
+        elif m0 is not None:
             m = m0
-            ok = True
             for i, e in enumerate(edits):
-                try:
-                    m = _apply_edit(m, e)
-                except ValueError:
-                    ok = False
+                seq = edits[: i + 1]
+                m, status, viol = _eval_sequence(m0, m, lay, seq, e)
+                if status != 'ok' or i == len(edits) - 1:
+                    found += [(f_, _full_clause(lay, seq, c_), d_) for f_, c_, d_ in viol]
+                if status != 'ok':
                     break
-                except Exception as ex:
-                    fails.add(_FID_EDIT[e[0]], f'{_edit_label(lay["cls"], edits[: i + 1])}: {R_NOERR}', _exc_str(ex), lay,
-                              edits[: i + 1])
-                    ok = False
-                    break
-            if ok:
-                _check_roundtrip(m0, m, lay, edits, fails)
-    for (f_id, clause), (size, f) in fails.items.items():
-        if f_id == case.get('fid') and clause == case.get('clause'):
-            return (False, f['detail'])
+    for f_, c_, d_ in found:
+        if f_ == case.get('fid') and c_ == case.get('clause'):
+            return (False, _short(d_, 900))
     return (True, 'ok')
